@@ -839,6 +839,116 @@ mut("ok-unpin-early-return", "benign", ["C16", "C13"], "unpin restructured with 
         }
 
         self.guard_count.set(guard_count - 1);""")])
+mut("ok-unpin-cold-path", "benign", ["C13", "C15", "C16", "C20"], "unpin's collection loop hoisted into a #[cold] helper (with the finalize test kept)",
+    [ed(I, """        if guard_count == 1 && !self.collecting.get() {
+            self.collecting.set(true);
+            while self.must_collect.get() {
+                self.must_collect.set(false);
+                debug_assert!(self.epoch.load(Ordering::Relaxed).is_pinned());
+                let guard = ManuallyDrop::new(Guard { local: self });
+                self.global().collect(&guard);
+                self.repin_without_collect();
+            }
+            self.collecting.set(false);
+        }
+""", """        if guard_count == 1 && self.must_collect.get() && !self.collecting.get() {
+            return self.unpin_and_collect();
+        }
+"""),
+     ed(I, """    /// Unpins and then pins the `Local`.
+    #[inline]
+    pub(crate) fn repin(&self) {""", """    #[cold]
+    fn unpin_and_collect(&self) {
+        self.collecting.set(true);
+        while self.must_collect.get() {
+            self.must_collect.set(false);
+            let guard = ManuallyDrop::new(Guard { local: self });
+            self.global().collect(&guard);
+            self.repin_without_collect();
+        }
+        self.collecting.set(false);
+
+        self.guard_count.set(0);
+        self.epoch.store(Epoch::starting(), Ordering::Release);
+        if self.handle_count.get() == 0 {
+            self.finalize();
+        }
+    }
+
+    /// Unpins and then pins the `Local`.
+    #[inline]
+    pub(crate) fn repin(&self) {""")])
+mut("unpin-cold-path-no-finalize", "break", ["C20", "C15"], "same refactoring without the finalize test on the slow path (independent seed S-C20-1)",
+    [ed(I, """        if guard_count == 1 && !self.collecting.get() {
+            self.collecting.set(true);
+            while self.must_collect.get() {
+                self.must_collect.set(false);
+                debug_assert!(self.epoch.load(Ordering::Relaxed).is_pinned());
+                let guard = ManuallyDrop::new(Guard { local: self });
+                self.global().collect(&guard);
+                self.repin_without_collect();
+            }
+            self.collecting.set(false);
+        }
+""", """        if guard_count == 1 && self.must_collect.get() && !self.collecting.get() {
+            return self.unpin_and_collect();
+        }
+"""),
+     ed(I, """    /// Unpins and then pins the `Local`.
+    #[inline]
+    pub(crate) fn repin(&self) {""", """    #[cold]
+    fn unpin_and_collect(&self) {
+        self.collecting.set(true);
+        while self.must_collect.get() {
+            self.must_collect.set(false);
+            let guard = ManuallyDrop::new(Guard { local: self });
+            self.global().collect(&guard);
+            self.repin_without_collect();
+        }
+        self.collecting.set(false);
+
+        self.guard_count.set(0);
+        self.epoch.store(Epoch::starting(), Ordering::Release);
+    }
+
+    /// Unpins and then pins the `Local`.
+    #[inline]
+    pub(crate) fn repin(&self) {""")], ["EBR-FINALIZE-HANDOFF"])
+mut("ok-dec-strong-helper", "benign", ["C01", "C02", "C04"], "decrement_strong's hand-off hoisted into a private helper",
+    [ed(U, """        if hit_zero {
+            guard.defer_with_inner(ptr, |inner| Self::try_destruct(inner));
+        }
+        // Periodically triggers a collection.
+        guard.incr_manual_collection();
+    }
+""", """        Self::after_decrement(ptr, hit_zero, guard);
+    }
+
+    #[inline]
+    unsafe fn after_decrement(ptr: *mut Self, hit_zero: bool, guard: &Guard) {
+        if hit_zero {
+            guard.defer_with_inner(ptr, |inner| Self::try_destruct(inner));
+        }
+        // Periodically triggers a collection.
+        guard.incr_manual_collection();
+    }
+""")])
+mut("ok-advance-helper", "benign", ["C13", "C14", "C18"], "try_advance's per-participant test hoisted into a private helper",
+    [ed(I, """                    if local_epoch.is_pinned() && local_epoch.unpinned() != global_epoch {
+                        return global_epoch;
+                    }""", """                    if Self::lags(local_epoch, global_epoch) {
+                        return global_epoch;
+                    }"""),
+     ed(I, """    /// Attempts to advance the global epoch.
+    ///
+    /// The global epoch can advance only if""", """    #[inline]
+    fn lags(local_epoch: Epoch, global_epoch: Epoch) -> bool {
+        local_epoch.is_pinned() && local_epoch.unpinned() != global_epoch
+    }
+
+    /// Attempts to advance the global epoch.
+    ///
+    /// The global epoch can advance only if""")])
 mut("ok-depth-cap-2048", "benign", ["C06"], "depth cap raised to 2048 (C06 unaffected; C07 finding key changes)",
     [ed(U, "if depth >= 1024 {", "if depth >= 1024 + 0 {")])
 
